@@ -3,9 +3,10 @@
      (2 (s ...) (label ...))          ThreadedHistory replay -> one observation per label
      (3 (s ...) (pool ...) maxc fuel) enumerate replayable schedules
      (4 (s ...) (pool ...) maxc (choice ...)) one schedule by a guided walk
-     (5 (byte ...))                   utf8_dec alone *)
+     (5 (byte ...))                   utf8_dec alone
+     (6 (s ...) (label ...) (mask ...)) as 2, only the observations with mask <> 0 *)
 From Coq Require Import ZArith List Bool.
-From PTK Require Import Lib.Sx Lib.Py Model.C13_Utf8 Model.C13_HistFile Model.C13_Threaded.
+From PTK Require Import Lib.Sx Lib.Py Model.C13_Utf8 Model.C13_HistFile Model.C13_Threaded Model.C13_ThreadedLate.
 Import ListNotations.
 Open Scope Z_scope.
 
@@ -15,6 +16,7 @@ Definition run_C13 (c : sx) : sx :=
   | L [A 2; s0; L labels] => run_threaded s0 labels
   | L [A 3; s0; pool; A maxc; A fuel] => run_enum s0 pool maxc fuel
   | L [A 4; s0; pool; A maxc; ch] => run_walk s0 pool maxc ch
+  | L [A 6; s0; L labels; mask] => run_threaded_masked s0 labels mask
   | L [A 5; b] => match as_str b with Some b' => sx_str (utf8_dec b') | None => bad_case end
   | _ => bad_case
   end.
